@@ -267,7 +267,9 @@ extern "C" void vp_main() {
     if (noSignal) vp_assert("no-signal-completes-every-request", cnt >= 1 && inNext == 0 && !cur);
     if (wasEndSyn) vp_assert("closing-syn-touches-no-request", cnt == 0 && g_deleted[0] == 0);
     // a completion whose callback asks for a restart re-queues the request (and only loss of signal may then end the new life)
-    if (cnt >= 1 && g_restart[0]) vp_assert("restart-requeues-the-request", (cnt == 1 && inNext == 1) || drained);
+    // (the no-signal drain of a QUEUED request ignores the answer of the callback by design: "notify all requests")
+    bool drainedOnly = noSignal && cnt == 1 && g_notifyResult[0] == RESULT_ERR_NO_SIGNAL;
+    if (cnt >= 1 && g_restart[0] && !drainedOnly) vp_assert("restart-requeues-the-request", (cnt == 1 && inNext == 1) || drained);
     if (cnt >= 1 && !(cnt == 1 && g_restart[0] && inNext == 1)) {
       if (del0) vp_assert("self-deleting-request-deleted-once-and-nowhere-queued", g_deleted[0] == 1 && inNext == 0 && inFin == 0);
       else vp_assert("waited-request-handed-to-the-finished-queue-once", g_deleted[0] == 0 && inNext == 0 && inFin == 1);
